@@ -271,6 +271,9 @@ def make_virtual_select (clock, real_select=None, stats=None):
       try:
         a, b, c = real_select(real_r, real_w, [], 0)
       except (OSError, ValueError):
+        # (a caller that hands in real sockets of its own wants to see what
+        #  the select function under test does with them)
+        if stats is not None and stats.get("strict_real"): raise
         # one stale descriptor (a pinger whose owner is gone) must not hide
         # the readiness of the others: poll them one by one
         a, b = [], []
@@ -409,15 +412,17 @@ class World (object):
     return n
 
   def _pinger_ready (self):
-    fds = [self.hub._pinger]
+    fds = [self.hub._pinger]; wfds = []
     for (t, rl, wl, xl, to) in list(self.hub._tasks.values()):
       for x in (rl or []):
         if _sock_of(x) is None: fds.append(x)
+      for x in (wl or []):
+        if _sock_of(x) is None: wfds.append(x)
     try:
-      r, _, _ = _select.select(fds, [], [], 0)
+      r, wr, _ = _select.select(fds, wfds, [], 0)
     except (OSError, ValueError):
       return False
-    return bool(r)
+    return bool(r or wr)
 
   def _idle_no_time (self):
     """
